@@ -1148,3 +1148,132 @@ func fieldSym(v ssa.Value, depth int) string {
 	}
 	return "?"
 }
+
+// checkDecodedPayloadOwned (O8): what ReadString / ReadBinary hand to the decoded structure is the
+// decoded structure's own memory - a string made by a copying conversion (string(bytes),
+// (*bytes.Buffer).String()) and a byte slice allocated in the reader - never a view of the transport's
+// or the protocol's buffer (which the next packet overwrites: a batch decoded earlier would silently
+// change). Followed through same-package helpers the readers return through.
+func (c *Ctx) checkDecodedPayloadOwned(rule string) {
+	n := 0
+	for _, proto := range []string{"TBinaryProtocol", "TCompactProtocol"} {
+		for _, m := range []string{"ReadString", "ReadBinary"} {
+			fn := c.fn(thriftPkg, proto, m)
+			if fn == nil {
+				c.missing(rule, "thrift."+proto+"."+m)
+				continue
+			}
+			n++
+			key := c.fnKey(fn)
+			c.sawFunc(key)
+			visiting := map[*ssa.Function]bool{}
+			var owned func(f *ssa.Function, depth int) (string, ssa.Instruction)
+			var ownedVal func(f *ssa.Function, v ssa.Value, at ssa.Instruction, depth int, seen map[ssa.Value]bool) (string, ssa.Instruction)
+			ownedVal = func(f *ssa.Function, v ssa.Value, at ssa.Instruction, depth int, seen map[ssa.Value]bool) (string, ssa.Instruction) {
+				if in, ok := v.(ssa.Instruction); ok {
+					at = in
+				}
+				if depth == 0 {
+					return "its origin could not be traced", at
+				}
+				if seen[v] {
+					return "", nil
+				}
+				seen[v] = true
+				switch x := v.(type) {
+				case *ssa.Const:
+					return "", nil
+				case *ssa.MakeSlice:
+					return "", nil
+				case *ssa.Convert:
+					// []byte -> string and string -> []byte conversions copy
+					_, fromSlice := x.X.Type().Underlying().(*types.Slice)
+					_, toSlice := x.Type().Underlying().(*types.Slice)
+					if fromSlice != toSlice {
+						return "", nil
+					}
+					return ownedVal(f, x.X, at, depth-1, seen)
+				case *ssa.ChangeType:
+					return ownedVal(f, x.X, at, depth-1, seen)
+				case *ssa.Phi:
+					for _, e := range x.Edges {
+						if w, a := ownedVal(f, e, at, depth-1, seen); w != "" {
+							return w, a
+						}
+					}
+					return "", nil
+				case *ssa.Extract:
+					if call, ok := x.Tuple.(*ssa.Call); ok && x.Index == 0 {
+						return ownedVal(f, call, at, depth-1, seen)
+					}
+				case *ssa.Call:
+					g := staticCallee(x)
+					if g == nil {
+						return "it is the result of a dynamic call (" + calleeName(x) + ")", x
+					}
+					if g.Pkg != nil && g.Pkg.Pkg.Path() == "bytes" && g.Name() == "String" {
+						return "", nil // (*bytes.Buffer).String copies
+					}
+					if g.Pkg != nil && g.Pkg.Pkg.Path() == "strings" && g.Name() == "String" {
+						return "", nil // (*strings.Builder).String: the builder's own memory, not reused
+					}
+					if g.Pkg == fn.Pkg {
+						return owned(g, depth-1)
+					}
+					return "it is the result of " + g.String(), x
+				case *ssa.UnOp:
+					if x.Op == token.MUL {
+						if al, ok := x.X.(*ssa.Alloc); ok && al.Parent() == f && al.Referrers() != nil {
+							// a local / named-result cell: everything stored into it
+							for _, r := range *al.Referrers() {
+								if st, isSt := r.(*ssa.Store); isSt && st.Addr == ssa.Value(al) {
+									if w, a := ownedVal(f, st.Val, st, depth-1, seen); w != "" {
+										return w, a
+									}
+								}
+							}
+							return "", nil
+						}
+						return "it is read through a pointer (an unsafe view of a byte buffer, or a field)", x
+					}
+				case *ssa.Slice:
+					if al, ok := x.X.(*ssa.Alloc); ok && al.Parent() == f {
+						if _, isArr := deref(al.Type()).Underlying().(*types.Array); isArr {
+							return "", nil // a composite literal / local array of the reader
+						}
+					}
+					return ownedVal(f, x.X, at, depth-1, seen)
+				}
+				return "it is not a copy made by the reader (" + fmt.Sprintf("%T", v) + ")", at
+			}
+			owned = func(f *ssa.Function, depth int) (string, ssa.Instruction) {
+				if visiting[f] || depth == 0 {
+					return "", nil
+				}
+				visiting[f] = true
+				defer delete(visiting, f)
+				for _, r := range returnsOf(f) {
+					if len(r.Results) == 0 {
+						continue
+					}
+					if w, a := ownedVal(f, r.Results[0], r, 10, map[ssa.Value]bool{}); w != "" {
+						return w, a
+					}
+				}
+				return "", nil
+			}
+			why, at := owned(fn, 4)
+			var pos token.Pos
+			trail := ""
+			if at != nil {
+				pos = at.Pos()
+				trail = c.describe(at)
+			} else {
+				pos = fn.Pos()
+			}
+			c.check(why == "", rule, key, pos, "the decoded "+strings.TrimPrefix(m, "Read")+" is a copy owned by the decoded structure (copying conversion / slice allocated in the reader)",
+				"the decoded "+strings.TrimPrefix(m, "Read")+" is not the decoded structure's own memory: "+why+" - it aliases a buffer that the next packet overwrites, so a batch decoded earlier silently changes its content", trail)
+		}
+	}
+	c.floor(rule, n, 4)
+}
